@@ -86,7 +86,7 @@ def jobs(tier):
         j.append(("amavanka", "ama pushed bcsr m1", cfg_vanka(["bcsr"], [2], [1], ["amap", "amaps"], [3], [1, 2], ["none", "v"], pals=(1, 2), apat="diag", nz=(2, 4), maclens=(2, 3)), 9))
         j.append(("amavanka", "ama pushed bcsr 4 macros", cfg_vanka(["bcsr"], [2], [1], ["amaps"], [2], [2], ["none"], apat="diag", nz=(3, 4), maclens=(4,)), 9))
         j.append(("amavanka", "ama pushed bcsr m2", cfg_vanka(["bcsr"], [2], [2], ["amap", "amaps"], [2], [2], ["none", "pm"], apat="diag", nz=(7, 8), maclens=(2,)), 9))
-        j.append(("amavanka", "ama pushed csr m1", cfg_vanka(["csr"], [2], [1], ["amap", "amaps"], [1, 2], [1, 2], ["none", "p"], pals=(1, 2), apat="all", nz=(2, 4), maclens=(2, 3)), 9))
+        j.append(("amavanka", "ama pushed csr m1", cfg_vanka(["csr"], [2], [1], ["amap", "amaps"], [1, 2], [1, 2], ["none", "p"], apat="diag", nz=(2, 4), maclens=(2, 3)), 9))
         j.append(("amavanka", "ama pushed csr n3", cfg_vanka(["csr"], [3], [1], ["amap", "amaps"], [2], [2], ["none"], apat="diag", nz=(5, 6), maclens=(2,)), 9))
         j.append(("amavanka", "ama pushed csr m2", cfg_vanka(["csr"], [2], [2], ["amap", "amaps"], [3], [2], ["none", "pm"], apat="diag", nz=(7, 8), maclens=(2,)), 9))
         j.append(("amavanka", "ama n2 coupled", cfg_vanka(["bcsr"], [2], [2], ["ama", "amas"], [3], [2], ["none"], pals=(1, 2, 3), apat="coupled", nz=(4, 8)), 5))
